@@ -5,7 +5,7 @@ import os
 import sys
 import traceback
 
-from .run import Run
+from .run import Run, WorkerDied
 
 
 def main():
@@ -23,7 +23,10 @@ def main():
         run = Run(a.prop, a.tier, seed, repo)
         try:
             mod = importlib.import_module('contracts.' + a.prop)
-            mod.check(run)
+            try:
+                mod.check(run)
+            except WorkerDied:
+                pass
             code = run.finish()
         except Exception:
             tb = traceback.format_exc()
